@@ -325,6 +325,9 @@ func scanFunction(p *Prog, s *taskSide) (*ssa.Function, *ssa.Call) {
 	if has(s.parent) {
 		return s.parent, nil
 	}
+	if s.entry != nil && s.entry != s.parent && has(s.entry) {
+		return s.entry, nil // the launcher was extracted; the scan stayed in processBlock
+	}
 	for _, h := range p.helperClosure(s.parent) {
 		if !has(h) {
 			continue
